@@ -56,3 +56,12 @@ Theorem C18_ln_existing_fails : forall o p c c' src dst rest,
   run_steps o (p :: rest) (src, dst) = ((src, dst), Some FileExists).
 Proof. exact ln_existing_fails. Qed.
 Print Assumptions C18_ln_existing_fails.
+
+(* ---- T17: the sources this property rests on keep no state outside the objects the model has (no static locals
+   or mutable globals in C, no class-level / module-level containers, `global` rebinding or cache decorators in
+   Python): the list of such sites, regenerated from the sources on every run, is empty *)
+From Coq Require Import String List.
+From DRF Require Import Gen.StateSites Proofs.StateSitesProofs.
+Theorem C18_no_state_outside_the_modelled_objects : state_sites_listing = @nil string.
+Proof. repeat split; first [exact no_state_outside_objects_listing]. Qed.
+Print Assumptions C18_no_state_outside_the_modelled_objects.
